@@ -92,7 +92,12 @@ def c12_budget_script(stype, scen, k, size, n):
     for i in range(n):
         first = b"t%d-%d-" % (scen, i) + b"b" * size
         ms.append([hx(first), hx("tag%d.%d" % (scen, i))])
-    ops += [{"op": "send_burst", "ms": ms}, {"op": "budget"}, {"op": "settle"}, {"op": "quiescent"}]
+    ops += [{"op": "send_burst", "ms": ms}, {"op": "budget"}, {"op": "settle"}]
+    # nobody's connection ever failed to take data for longer than the publisher kept the thread: everything arrives
+    for c in (1, 2):
+        for m in (ms[0], ms[len(ms) // 2], ms[-2], ms[-1]):
+            ops.append({"op": "expect_wire", "c": c, "m": m})
+    ops.append({"op": "quiescent"})
     return {"scen": scen, "sock": stype, "ops": ops, "tag": "budget/%d/%d/%d" % (k, size, n), "nojitter": True}
 
 
